@@ -20,7 +20,7 @@ def run_mc(defs, workdir, own, max_pause=0, max_cancel=0, max_steps=14, known=()
     dpath = os.path.join(workdir, tag + "_defs.json")
     with open(dpath, "w") as f:
         json.dump([X.tla_def(d) for d in defs], f)
-    cfg = os.path.join(SPEC, "MC_%s_%d.cfg" % (tag, os.getpid()))
+    cfg = os.path.join(workdir, "MC_%s_%d.cfg" % (tag, os.getpid()))      # (absolute path: nothing is written into spec/)
     q = lambda xs: "{" + ", ".join('"%s"' % x for x in xs) + "}"
     with open(cfg, "w") as f:
         f.write("SPECIFICATION Spec\nCONSTANTS\n  MaxPause = %d\n  MaxCancel = %d\n  MaxSteps = %d\n  MaxRerun = %d\n"
@@ -28,7 +28,7 @@ def run_mc(defs, workdir, own, max_pause=0, max_cancel=0, max_steps=14, known=()
                 % (max_pause, max_cancel, max_steps, max_rerun, q(own), q(known), "Intended" if intended else "AsCode",
                    ("INVARIANT EmitLeaves\n" if emit else "") + ("INVARIANT BoundNotHit\n" if bound_check else "")))
     try:
-        res = tlc.run("MC", cfg=os.path.basename(cfg), env={"DEFS_FILE": dpath,
+        res = tlc.run("MC", cfg=cfg, env={"DEFS_FILE": dpath,
                                                               # TLC's disk queue cannot write MC's lazily evaluated function values
                                                               # (FcnLambdaValue under a VIEW): keep the queue in memory
                                                               "JAVA_TOOL_OPTIONS": "-Dtlc2.tool.queue.IStateQueue=MemStateQueue"},
